@@ -91,7 +91,7 @@ PROPS = {
     "C14": {
         "title": "A generated plan is a faithful copy of the workflow graph",
         "lean": ["TopsimProps.C14", "TopsimProofs.Bridge.Plan", "TopsimProps.C14Traj"],
-        "streams": [("default", 12, 150), ("contended", 8, 100)],
+        "streams": [("default", 12, 150), ("contended", 8, 100), ("units", 8, 100)],
         "direct": ["c14"],
         "monitor": ["C14"],
     },
